@@ -23,15 +23,17 @@ def child_selection(ctx: Ctx) -> dict[str, set[str]]:
     stm = stmt_classes(ctx)
     defs = ListV(tuple(Sym(f"child:{k}", k) for k in stm))
     block = Obj("Block", (("body", defs),))
+    enum_base = Obj("NameExpr", (("fullname", Const("enum.Enum")),))
     containers = {
         "Module": Obj("MypyFile", (("defs", defs),)),
-        "Class": Obj("ClassDef", (("defs", block),)),
+        "Class": Obj("ClassDef", (("defs", block), ("base_type_exprs", ListV(())))),
+        "Enum": Obj("ClassDef", (("defs", block), ("base_type_exprs", ListV((enum_base,))))),
         "Constructor": Obj("FuncDef", (("name", Const("__init__")), ("body", block))),
         "Function": Obj("FuncDef", (("name", Const("some_function")), ("body", block))),
     }
     res: dict[str, set[str]] = {}
     for kind, node in containers.items():
-        it = ctx.interp(fi, inline=DEF_HELPERS)
+        it = ctx.interp(fi, inline=DEF_HELPERS | {"__is_enum"})
         outs = it.run_function(fi, {"self": Sym("self"), "node": node, "visited_nodes": Sym("visited")})
         sel: set[str] = set()
         for o in outs:
@@ -85,7 +87,7 @@ def possible_parents(sel: dict[str, set[str]]) -> dict[str, list[str]]:
     """handler kind -> parent kinds the stack top can have when the handler runs (from the walker's child selection)."""
     res: dict[str, list[str]] = {"classdef": [], "enumdef": [], "funcdef": [], "assignmentstmt": []}
     # class bodies are walked for both classes and enums (both are ClassDef nodes)
-    containers = {"Module": sel["Module"], "Class": sel["Class"], "Enum": sel["Class"], "Constructor": sel["Constructor"], "Function": sel["Function"]}
+    containers = {"Module": sel["Module"], "Class": sel["Class"], "Enum": sel["Enum"], "Constructor": sel["Constructor"], "Function": sel["Function"]}
     for parent, kids in containers.items():
         if "ClassDef" in kids:
             res["classdef"].append(parent)
